@@ -15,10 +15,23 @@ Definition default_max_nb : N := Consts.DEFAULT_STRING_MAX_NB_MATCHES.
 (* the property, for one input: starts = offsets with a member; every (offset, length) is a member;
    the length is one of the three recognised choices.  (Strictly ascending, one per offset: implied
    by the first clause.) *)
-Definition spec_matches (fl : rflags) (h : hir) (mem : list N) (out : list (N * N)) : bool :=
+Definition spec_members (fl : rflags) (h : hir) (mem : list N) (out : list (N * N)) : bool :=
   list_eqb N.eqb (map fst out) (filter (fun o => nonempty (ends fl mem h o)) (iota 0 (nlen mem)))
-  && forallb (fun ol => mem_N (fst ol + snd ol) (ends fl mem h (fst ol))) out
-  && forallb (fun ol => len_choice_ok (Lens fl mem h (fst ol)) (snd ol)) out.
+  && forallb (fun ol => mem_N (fst ol + snd ol) (ends fl mem h (fst ol))) out.
+Definition spec_choice (fl : rflags) (h : hir) (mem : list N) (out : list (N * N)) : bool :=
+  forallb (fun ol => len_choice_ok (Lens fl mem h (fst ol)) (snd ol)) out.
+Definition spec_matches (fl : rflags) (h : hir) (mem : list N) (out : list (N * N)) : bool :=
+  spec_members fl h mem out && spec_choice fl h mem out.
+
+(* known finding "length by arrival": when a string has literals of three or more lengths, the match kept
+   at an offset is the one whose atom is met first by the Aho-Corasick pass (then literal order), which can
+   be a middle length: neither the shortest, nor the leftmost-first, nor the longest.  Class: literals of
+   >= 3 distinct lengths and an offset of the input with >= 3 member lengths; it only excuses the
+   length-choice clause (the first two clauses must hold). *)
+Definition distinct_lengths (lits : list (list N)) : N := nlen (dedup (map (fun l : list N => nlen l) lits)).
+Definition kf_len_arrival (d : sdesc) (lens_at : N -> list N) (mem : list N) : bool :=
+  (3 <=? distinct_lengths (s_lits d))
+  && existsb (fun o => 3 <=? nlen (dedup (lens_at o))) (iota 0 (nlen mem)).
 
 (* rs: per input (corr, spec, known-finding class of the input, 0 = none).  The case is in a known
    class only if every input that fails the spec is; the class reported is the largest one met. *)
@@ -61,9 +74,12 @@ Definition kf_alt_glue (d : sdesc) (h : hir) (mem : list N) : bool :=
   | _, _ => false
   end.
 
-Definition spec_regex (md : mods) (h : hir) (mem : list N) (out : list (N * N)) : bool :=
+Definition spec_regex_members (md : mods) (h : hir) (mem : list N) (out : list (N * N)) : bool :=
   list_eqb N.eqb (map fst out)
            (filter (fun o => let (a, w) := members_at md h mem o in nonempty a || nonempty w) (iota 0 (nlen mem)))
+  && forallb (fun ol => let (a, w) := members_at md h mem (fst ol) in mem_N (snd ol) a || mem_N (snd ol) w) out.
+Definition spec_regex (md : mods) (h : hir) (mem : list N) (out : list (N * N)) : bool :=
+  spec_regex_members md h mem out
   && forallb (fun ol => let (a, w) := members_at md h mem (fst ol) in
                         (mem_N (snd ol) a && len_choice_ok a (snd ol))
                         || (mem_N (snd ol) w && len_choice_ok w (snd ol))) out.
@@ -137,7 +153,9 @@ Definition kf_wide_rev_context (d : sdesc) (mem : list N) : bool :=
 Definition one_input_re (d : sdesc) (h : hir) (mem : list N) (out : list (N * N)) : bool * bool * N :=
   (matches_eqb out (model_scan d mem default_max_nb),
    spec_regex (s_mods d) h mem out,
-   if kf_wide_rev_context d mem then 4
+   if spec_regex_members (s_mods d) h mem out then
+     (if kf_len_arrival d (fun o => let (a, w) := members_at (s_mods d) h mem o in a ++ w) mem then 5 else 0)
+   else if kf_wide_rev_context d mem then 4
    else if kf_alt_glue d h mem then 3
    else if kf_fullword_other_length (s_mods d) h mem then 2
    else if kf_start_position d mem default_max_nb then 1 else 0).
@@ -167,7 +185,9 @@ Definition C03_case (n : node) (ci da : bool) (d : sdesc) (ins : list (list N)) 
 Definition one_input (d : sdesc) (h : hir) (mem : list N) (out : list (N * N)) : bool * bool * N :=
   (matches_eqb out (model_scan d mem default_max_nb),
    spec_matches (flags_of (s_mods d)) h mem out,
-   if kf_alt_glue d h mem then 3
+   if spec_members (flags_of (s_mods d)) h mem out then
+     (if kf_len_arrival d (Lens (flags_of (s_mods d)) mem h) mem then 5 else 0)
+   else if kf_alt_glue d h mem then 3
    else if kf_start_position d mem default_max_nb then 1 else 0).
 
 Fixpoint zip_inputs (d : sdesc) (h : hir) (ins : list (list N)) (outs : list (list (N * N)))
